@@ -1064,6 +1064,9 @@ func callBuiltin(caller *frame, callpos token.Pos, fn *ssa.Builtin, args []value
 		case string:
 			return len(x)
 		case symstr:
+			if x.e.op == OpUF && x.e.name == b2sName(len(x.e.args)) {
+				return len(x.e.args)
+			}
 			return mkSym(types.Int, mkUF("strlen", 64, x.e))
 		case array:
 			return len(x)
@@ -1274,7 +1277,7 @@ func conv(t_dst, t_src types.Type, x value) value {
 			for i := range x {
 				c, ok := x[i].(byte)
 				if !ok {
-					unsupported("conversion of symbolic bytes to string")
+					return bytesToSymStr(x)
 				}
 				b = append(b, c)
 			}
